@@ -48,6 +48,10 @@ func init() {
 
 var c03IVs sync.Map
 
+// envOf lets the per-session code reach the in-memory environment of a BMC (nil for UDP).
+var envOf = map[*refbmc.BMC]*Env{}
+var envOfMu sync.Mutex
+
 func c03Gen(tier string, seed int64) []ev.Case {
 	var cs []ev.Case
 	mult := 1
@@ -98,11 +102,47 @@ func c03Exec(run *ev.Run, c ev.Case) {
 	} else {
 		e := NewEnv(cfg, memtr.Window)
 		b, st = e.BMC, e.ST
+		envOfMu.Lock()
+		envOf[b] = e
+		envOfMu.Unlock()
+		defer func() { envOfMu.Lock(); delete(envOf, b); envOfMu.Unlock() }()
 	}
 	// the handler answers with the body prepared for the current command;
 	// optionally node busy on the first attempt of some commands
 	var cur *genCmd
 	attempt := 0
+	faultKind := 0
+	envOfMu.Lock()
+	me, ok := envOf[b]
+	envOfMu.Unlock()
+	if ok {
+		// replies to first attempts of some commands are damaged on the way back
+		me.Filter = func(n int, req, reply []byte) ([]byte, error) {
+			if !s.Retries || cur == nil || attempt != 1 || reply == nil || b.Sess == nil || !b.Sess.Active {
+				return reply, nil
+			}
+			last := b.Last()
+			if last == nil || last.Kind != "session-ipmi" || (len(last.Data)+int(last.Cmd))%7 != 3 {
+				return reply, nil
+			}
+			faultKind++
+			m := append([]byte(nil), reply...)
+			switch faultKind % 5 {
+			case 0: // wrong AuthCode
+				m[len(m)-1] ^= 0x40
+				return m, nil
+			case 1: // corrupted ciphertext (signature then fails too)
+				m[20] ^= 0x01
+				return m, nil
+			case 2: // unauthenticated plaintext copy
+				return b.Sess.Wrap(refbmc.RespMsg(last, 0, cur.OkBody), refbmc.WrapOpts{NoAuthFlag: true, DropTrailer: true, NoEncrypt: true}), nil
+			case 3: // authentic reply for another command
+				return b.Sess.Wrap(refbmc.BuildRsp(0x81, 0x07, 0, 0x20, last.RqSeq, 0, 0x3f, 0, []byte{1, 2, 3}), refbmc.WrapOpts{}), nil
+			default: // truncated inside the AuthCode
+				return m[:len(m)-3], nil
+			}
+		}
+	}
 	b.Handler = func(e *refbmc.Event) (byte, []byte, bool) {
 		attempt++
 		if cur == nil {
